@@ -193,8 +193,9 @@ def run_tlc(ctx, module, cfg=None, workers=8, timeout=1800, simulate=None, depth
         res["violated"] = m2.group(1) if m2 else "property"
     elif re.search(r"Postcondition .* is false|Postcondition .* violated|Error: Evaluating the postcondition", out, re.I):
         res["violated"] = "POSTCONDITION"
-    elif "Temporal properties were violated" in out:
-        res["violated"] = "temporal"
+    elif "Temporal properties were violated" in out or re.search(r"Error: Temporal property \S+ was violated", out):
+        m3 = re.search(r"Error: Temporal property (\S+) was violated", out)
+        res["violated"] = m3.group(1) if m3 else "temporal"
     finished = ("Model checking completed. No error has been found." in out) or (simulate and p.returncode in (0,))
     res["ok"] = bool(finished) and res["violated"] is None
     if not res["ok"] and res["violated"] is None:
